@@ -465,7 +465,9 @@ def run(ctx):
     ctx.check_theorems('Properties/C11.v')
     # IR programs regenerated from the source vs the hand models: exact, zero tolerance.  rlevinson (2-D array U, column stores, the call of
     # levdown) is translated too: `run program (a, efinal)` = Model.LinPred.rlevinson, same outcome, every entry of R, U, kr, e
-    loopir_tie(ctx, ['LEVINSON', 'levup', 'levdown', 'rlevinson'])
+    # (T6) the conversions themselves - thin wrappers around LEVINSON / rlevinson / levup - are translated with their callees embedded and compared
+    # with Model.LinPred.{ac2poly, ac2rc, poly2ac, poly2rc, rc2poly, rc2ac} (ar2rc: raises NotImplementedError)
+    loopir_tie(ctx, ['LEVINSON', 'levup', 'levdown', 'rlevinson', 'ac2poly', 'ac2rc', 'poly2ac', 'poly2rc', 'ar2rc', 'rc2poly', 'rc2ac'])
 
     def call(f, *args):
         try:
